@@ -222,7 +222,7 @@ func quoteOf(raw []byte, f FormSpec) []byte {
 		binary.BigEndian.PutUint16(q[10:], inetChecksum(q[:off]))
 	}
 	switch f.Quote {
-	case "full", "ext":
+	case "full", "ext", "ext0", "ext2":
 	case "plus":
 		if len(q) > off+12 {
 			q = q[:off+12]
@@ -276,7 +276,7 @@ func icmpError(src, dst netip.Addr, f FormSpec, q []byte) []byte {
 		}
 	}
 	body := q
-	if f.Quote == "ext" {
+	if f.Quote == "ext" || f.Quote == "ext0" || f.Quote == "ext2" {
 		// RFC 4884: original datagram padded to 128 bytes, then an extension structure
 		if len(body) > 128 {
 			body = body[:128]
@@ -284,7 +284,13 @@ func icmpError(src, dst netip.Addr, f FormSpec, q []byte) []byte {
 		pad := make([]byte, 128)
 		copy(pad, body)
 		ext := []byte{0x20, 0, 0, 0, 0, 8, 1, 1, 0x00, 0x01, 0x01, 0x01}
-		binary.BigEndian.PutUint16(ext[2:], inetChecksum(ext))
+		if f.Quote == "ext2" {
+			// a two-label MPLS stack followed by an interface-information object (RFC 5837) of a class the tool has no use for
+			ext = []byte{0x20, 0, 0, 0, 0, 12, 1, 1, 0x00, 0x01, 0x00, 0x40, 0x00, 0x02, 0x01, 0x3f, 0, 8, 2, 0x0a, 0, 0, 0, 7}
+		}
+		if f.Quote != "ext0" {
+			binary.BigEndian.PutUint16(ext[2:], inetChecksum(ext))
+		} // "ext0": checksum field zero = not transmitted (RFC 4884 section 7)
 		body = append(pad, ext...)
 		if v6 {
 			m.Rest[0] = 16 // 64-bit words
